@@ -20,13 +20,15 @@ Definition table := list (N * acct).
 Definition total (P : params) (lvl : N) (t : table) : N :=
   fold_right (fun e acc => bwp P lvl (snd e) + acc) 0 t.
 
-(* minimum balance requirement, closed form (saturation only at the very end) *)
-Definition spec_min_balance (P : params) (x : acct) : N :=
-  N.min (2 ^ 64 - 1)
-        (p_minbal P + p_minbal P * a_assets x + p_appflatparams P * a_appparams x +
-         p_appflatoptin P * a_applocals x +
-         N.min (2 ^ 64 - 1)
-               (N.min (2 ^ 64 - 1) (p_schemaentry P * N.min (2 ^ 64 - 1) (a_schema_u x + a_schema_b x)) +
-                p_schemauint P * a_schema_u x + p_schemabytes P * a_schema_b x) +
-         p_appflatparams P * a_extrapages x + p_boxflat P * a_boxes x + p_boxbyte P * a_boxbytes x).
+(* minimum balance requirement, closed form: the sum of the per-resource costs, capped at
+   the largest uint64 (the schema part is capped the same way on its own, as is its entry
+   count) *)
+Definition cap (n : N) : N := N.min n (2 ^ 64 - 1).
 
+Definition spec_schema_cost (P : params) (nu nb : N) : N :=
+  cap (cap (p_schemaentry P * cap (nu + nb)) + p_schemauint P * nu + p_schemabytes P * nb).
+
+Definition spec_min_balance (P : params) (x : acct) : N :=
+  cap (p_minbal P + p_minbal P * a_assets x + p_appflatparams P * a_appparams x +
+       p_appflatoptin P * a_applocals x + spec_schema_cost P (a_schema_u x) (a_schema_b x) +
+       p_appflatparams P * a_extrapages x + p_boxflat P * a_boxes x + p_boxbyte P * a_boxbytes x).
